@@ -333,4 +333,44 @@ theorem parseLoop_spec (cmds : List Cmd) (pats : List Pattern.Pat) (ht : TableOK
       rw [hemp]
       simp only [Bool.not_false, if_true, Bool.false_eq_true, if_false]
       exact ⟨t7, e2⟩
+/-! ### SCPI_Parse -/
+
+/-- the context `SCPI_Parse` enters its unit loop with -/
+def parseStart (c : Ctx) (base len : Nat) : Ctx :=
+  let c := { c with out := { c.out with outputCount := 0, firstOutput := true, gCur := [], gItems := [], gUnits := [], gPartial := false } }
+  emit c (.parseMsg ((c.buf.drop base).take len))
+
+theorem parse_events (c : Ctx) (base len : Nat) :
+    (parse c base len).1.events = (parseLoop (len + 2) (parseStart c base len) base len none true).1.events := by
+  unfold parse parseStart
+  dsimp only
+
+/-- C02, full statement -/
+theorem dispatch_correct (c : Ctx) (base len : Nat) (pats : List Pattern.Pat)
+    (hb : base + len ≤ c.buf.length) (ht : TableOK c.cmds pats) (hs : NoScript113 c.cmds)
+    (hwf : ∀ u ∈ unitsOf ((c.buf.drop base).take len), u.wellFormed = true ∧ 0 ≤ u.nParams) :
+    let msg := (c.buf.drop base).take len
+    let us := (unitsOf msg).filter (fun u => !u.header.isEmpty)
+    let want := expectDispatch pats (unitsOf msg)
+    let got := dispatchTrace ((parse c base len).1.events.drop c.events.length)
+    got.length = want.length ∧ us.length = want.length ∧
+    ∀ k (hk : k < want.length), ∃ e u, got[k]? = some e ∧ us[k]? = some u ∧ realises c.cmds u.header want[k] e := by
+  intro msg us want got
+  have hml : msg.length = len := window_length c.buf base len hb
+  have hu : unitsOf msg = units (len + 1) msg (base - base) := by
+    unfold unitsOf; rw [hml, Nat.sub_self]
+  have k3 : (parseStart c base len).events = c.events ++ [.parseMsg ((c.buf.drop base).take len)] := rfl
+  have k4 := parse_events c base len
+  obtain ⟨es, e1, e2⟩ := parseLoop_spec c.cmds pats ht hs msg base len hml (len + 2) (len + 1)
+    (parseStart c base len) base len none none true rfl (Nat.le_refl _) rfl hb
+    (by rw [Nat.sub_self]; rfl) trivial (by omega) (by omega) (by rw [← hu]; exact hwf)
+  have hgot : got = dispatchTrace es := by
+    show dispatchTrace ((parse c base len).1.events.drop c.events.length) = _
+    rw [k4, e1, k3, List.append_assoc, List.drop_left, dispatchTrace_append]
+    rfl
+  have hw : want = expGo pats (unitsOf msg) none := expectDispatch_eq _ _
+  rw [← hu] at e2
+  rw [hgot, hw]
+  exact real_index c.cmds _ _ _ e2
+
 end ScpiVerif.Lemmas.Dispatch
